@@ -250,7 +250,18 @@ def _install(T):
         if b is None:
             a, b = 0, a
         if step is not None and step != 1:
-            raise Unsupported("arange with step")
+            # arange(a, b, s) for a concrete non-zero integer step s: a, a+s, ... while on the b-side; length ceil((b-a)/s) clipped at 0
+            if isinstance(step, bool) or not isinstance(step, int) or step == 0:
+                raise Unsupported("arange with a non-integer or symbolic step")
+            if not (V.s_is_int(a) and V.s_is_int(b)):
+                raise Unsupported("arange with step over non-integer bounds")
+            if V.is_conc(a) and V.is_conc(b):
+                return Arr.from_items([Fraction(v) if False else v for v in range(int(a), int(b), step)], dtype="int")
+            span = (b - a) if step > 0 else (a - b)
+            st_ = abs(step)
+            cnt = I.dom.floordiv(span + (st_ - 1), st_) if st_ != 1 else span
+            n = V.s_max(cnt, 0)
+            return Arr.build(n, lambda i, a=a, step=step: a + i * step, "int")
         isint = V.s_is_int(a) and V.s_is_int(b)
         if not isint:
             # arange over floats with integral step: length ceil(b-a)
@@ -336,6 +347,28 @@ def _install(T):
             for j, dj in enumerate(d):
                 rem[i + j] = rem[i + j] - c * dj
         return (Arr.from_items(q, dtype=dt), Arr.from_items(rem, dtype=dt))
+
+    @reg("numpy.pad", doc="pad(a, (before, after), mode='constant', constant_values=c): 1-D, c (default 0) before and after a")
+    def np_pad(I, a, pad_width, mode="constant", constant_values=0, **kw):
+        a = as_array(I, a) if not isinstance(a, Arr) else a
+        if mode != "constant":
+            raise Unsupported("pad mode %r" % (mode,))
+        if isinstance(pad_width, (list, tuple)) and len(pad_width) == 1 and isinstance(pad_width[0], (list, tuple)):
+            pad_width = pad_width[0]
+        if V.is_num(pad_width):
+            before = after = pad_width
+        elif isinstance(pad_width, (list, tuple)) and len(pad_width) == 2:
+            before, after = pad_width
+        else:
+            raise Unsupported("pad width of this form")
+        before, after = I.as_index(before), I.as_index(after)
+        for w in (before, after):
+            neg = V.s_cmp("<", w, 0)
+            if neg is not False and I.branch(neg):
+                raise RaiseSig("ValueError", "index can't contain negative values")
+        c = constant_values[0] if isinstance(constant_values, (list, tuple)) else constant_values
+        c = V.cast_to(c, a.dtype)
+        return V.concat([Arr.build(before, lambda i: c, a.dtype), a, Arr.build(after, lambda i: c, a.dtype)])
 
     @reg("numpy.append", doc="append(a, v): a followed by v (flattened)")
     def np_append(I, a, v, **kw):
